@@ -30,6 +30,7 @@ impl Engine for C06 {
             min_len: 0,
             dup_pct: 5,
             tab_desc_pct: 12,
+            utf8_id_pct: 15,
             dup_id_pct: 3,
         };
         let mut records = g.gen(rng);
